@@ -69,6 +69,11 @@ pub fn exec(
         ctx.complete_bang_operators();
     }
 
+    // right after the ':' or ',' of a parent class list, before anything is typed
+    if parent_node.kind() == SyntaxKind::ParentClassList {
+        ctx.complete_classes(symbol_map);
+    }
+
     match parent_parent_node.kind() {
         SyntaxKind::StatementList => ctx.complete_toplevel_keywords(),
         SyntaxKind::InnerValue => ctx.complete_primitive_values(),
